@@ -324,7 +324,7 @@ def compile (isFn : Nat → Bool) (c : Ctx) : Expr → G (List Instr × Bool)
     finishTemplate t b
     pure ([.createClosure t, .popStackPutEnv name, .push .nil], c.tail)
   | .assign l r => do
-    let (a, _) ← compile isFn c l
+    let (a, _) ← compile isFn { c with tail := false } l     -- fix C09-01: the target is not a tail position
     let (b, _) ← compile isFn { c with tail := false } r
     pure (a ++ b ++ [.assign], false)
   | .bad _ => throw ()
